@@ -123,12 +123,12 @@ main(int argc, char** argv)
     }
     if (!strcmp(tok[0], "wait")) {
       load(n, tok, 1);
-      errno = 0;
+      errno = V_ENTRY_ERRNO;
       const ZixStatus st = zix_sem_wait(&sem);
       printf("st=%d calls=%d%s\n", (int)st, calls, nonblocking_calls ? " SPEC-FAIL:wait-used-nonblocking-call" : "");
     } else if (!strcmp(tok[0], "try")) {
       load(n, tok, 1);
-      errno = 0;
+      errno = V_ENTRY_ERRNO;
       const ZixStatus st = zix_sem_try_wait(&sem);
       printf("st=%d calls=%d%s\n", (int)st, calls, blocking_calls ? " SPEC-FAIL:try_wait-used-a-blocking-call" : "");
     } else if (!strcmp(tok[0], "timed") && n >= 6) {
@@ -138,7 +138,7 @@ main(int argc, char** argv)
       clock_outcome.ok  = !strcmp(tok[5], "ok");
       clock_outcome.err = clock_outcome.ok ? 0 : name_errno(tok[5]);
       load(n, tok, 6);
-      errno = 0;
+      errno = V_ENTRY_ERRNO;
       const ZixStatus st = zix_sem_timed_wait(&sem, sec, nsec);
       printf("st=%d calls=%d", (int)st, calls);
       if (saw_abstime) {
